@@ -65,6 +65,10 @@ def run(pid, tier):
     sub = [i for i in range(len(scen)) if i % 6 == 0 or len(scen[i]['scripts']) > 1]
     obs2 = pc.execute(rep, [scen[i] for i in sub], 'default', 'C05noerrcb', env={'DRV_NULL_ERROR': '1'})
     pc.validate(rep, 'C05', [scen[i] for i in sub], obs2, 'C05-no-error-callback', kindfn=kind)
+    # a C89 build of the library (no stdbool: scpi_bool_t is an unsigned char, every truth value passes through it)
+    sub89 = [i for i in range(len(scen)) if i % 5 == 1]
+    obs3 = pc.execute(rep, [scen[i] for i in sub89], 'c89', 'C05c89')
+    pc.validate(rep, 'C05', [scen[i] for i in sub89], obs3, 'C05-c89', kindfn=kind)
     suite_traces.validate(rep, 'C05:')
     composition.validate(rep, 'C05', tier)   # random messages of a minimal instrument against Scpi.tla      # hook traces of the repository's own test programs
     nt = [s for s in scen if nontrivial(s)]
